@@ -89,7 +89,31 @@ type Case struct {
 	Env  json.RawMessage `json:"env"`
 }
 
+// noHasError replaces has_error bound as a *value* in a context (the same exclusion as for calls by name): called through
+// the context it would again turn an error's text, which quotes identifiers as written, into a value.
+func noHasError(v gen.V) gen.V {
+	if v.K == "fn" && v.S == "has_error" {
+		v.S = "has_text"
+	}
+	if len(v.A) > 0 {
+		a := make([]gen.V, len(v.A))
+		for i := range v.A {
+			a[i] = noHasError(v.A[i])
+		}
+		v.A = a
+	}
+	if len(v.O) > 0 {
+		o := make([]gen.KV, len(v.O))
+		for i := range v.O {
+			o[i] = gen.KV{Key: v.O[i].Key, Val: noHasError(v.O[i].Val)}
+		}
+		v.O = o
+	}
+	return v
+}
+
 func buildCtx(env envs.Environment, v gen.V) *types.XObject {
+	v = noHasError(v)
 	if o, ok := v.Build(env).(*types.XObject); ok {
 		return o
 	}
